@@ -14,7 +14,9 @@ CONSTANTS MaxHist
 
 Entries == {"fractional_abundance", "from_elementdensity", "match_plasma_neutrality"}
 Elements == {"helium", "carbon"}
-Reps == {"scalar", "ndarray", "function1d", "function2d"}       \* how n_e, T_e and the donor density are handed over
+\* how n_e, T_e and the donor density are handed over; "function1d_int": 1-D functions sampled on a free variable
+\* given as an integer-typed array (coordinates 0, 1, 2 as np.arange gives them)
+Reps == {"scalar", "ndarray", "function1d", "function1d_int", "function2d"}
 \* front-ends: the entry point itself, the 1-D / 2-D interpolator builders (results evaluated at their nodes) and the
 \* equilibrium-mapped variant (profiles of normalised flux, result evaluated at points of known flux)
 Fronts == {"direct", "interpolators1d", "interpolators2d", "equilibrium_map3d"}
